@@ -102,3 +102,27 @@ Proof.
   rewrite (hub_store_load _ _ _ _ i) by assumption. unfold endian. destruct (big_endian s); [|reflexivity].
   apply BigEndianReverse_involutive; assumption.
 Qed.
+
+(* ---------- MPU lookup: the highest-numbered region that hits ---------- *)
+Lemma lookup_no_hit va l : forall a, Forall (fun x => region_hit va x = false) l ->
+  fold_left (fun acc r => if region_hit va r then Some r else acc) l a = a.
+Proof.
+  induction l as [|x t IH]; intros a H; [reflexivity|]. inversion H as [|? ? Hx Ht]; subst.
+  cbn [fold_left]. rewrite Hx. apply IH. exact Ht.
+Qed.
+Theorem mpu_lookup_highest l1 r l2 va : region_hit va r = true -> Forall (fun x => region_hit va x = false) l2 ->
+  mpu_lookup (l1 ++ r :: l2) va = Some r.
+Proof.
+  intros Hr H2. unfold mpu_lookup. rewrite fold_left_app. cbn [fold_left]. rewrite Hr. apply lookup_no_hit. exact H2.
+Qed.
+Theorem mpu_lookup_none regions va : Forall (fun x => region_hit va x = false) regions -> mpu_lookup regions va = None.
+Proof. intros H. unfold mpu_lookup. apply lookup_no_hit. exact H. Qed.
+Theorem mpu_lookup_some regions va r : mpu_lookup regions va = Some r -> In r regions /\ region_hit va r = true.
+Proof.
+  unfold mpu_lookup. assert (G : forall l a, fold_left (fun acc r => if region_hit va r then Some r else acc) l a = Some r ->
+                               a = Some r \/ (In r l /\ region_hit va r = true)).
+  { induction l as [|x t IH]; intros a H; [left; exact H|]. cbn [fold_left] in H. apply IH in H.
+    destruct H as [H|[H1 H2]]; [|right; split; [right; exact H1|exact H2]].
+    destruct (region_hit va x) eqn:E; [|left; exact H]. inversion H; subst. right. split; [left; reflexivity|exact E]. }
+  intros H. apply G in H. destruct H as [H|H]; [discriminate|exact H].
+Qed.
